@@ -356,7 +356,7 @@ class TranslationParserInit(Contract):
                 V.oblige(f"post:values-are-10x-intended[{m}]", z3.Or(*[g(m) == 10 * intended(z3.IntVal(t)) for t in range(cn)]))
                 V.oblige(f"post:every-intended-value-present[{m}]", z3.Or(*[g(t) == 10 * intended(z3.IntVal(m)) for t in range(cn)]))
         else:
-            V.oblige("post:values-are-10x-intended", False)
+            raise Unsupported("more than 6 values of a symbolic text form: the value clause is not stated for this path")
         # the identifier is a function of the final array only (data flow)
         h = obj.fields.get("grid_hash")
         ok = isinstance(h, Digest) and h.source is G and h.version == G.buf.version and h.stage == "hex[slice]->int"
